@@ -48,6 +48,8 @@ PREAMBLE = "Open Scope Z_scope."
 CASE_T = "case"
 RTOL = Fraction(1, 10**9)
 COND_MIN = Fraction(1, 10**4)      # cases whose definition divides by / takes a root of something smaller are skipped
+COND_FAR = Fraction(1, 16)         # ... same, for inverse-variance weighting of moments at a level of 2^17 (see design note)
+RTOL32 = Fraction(1, 10**5)        # Minkowski on float32 arrays (computed in single precision by numpy / scipy): oracle only
 
 
 # =============================================================================================== float <-> exact
@@ -87,13 +89,19 @@ def user_square(x):
     return x * x - 0.5
 
 
+def user_identity_view(x):
+    """A user callback that returns its argument itself (a view of the caller's array, not a copy)."""
+    return x
+
+
 def get_filter(name):
     if name is None:
         return None
     from black_it.utils import time_series as ts
 
     return {"hp_cycle": ts.hp_cycle_lamb1600_filter, "log_hp": ts.log_and_hp_filter,
-            "diff_log_demean": ts.diff_log_demean_filter, "user_affine": user_affine, "user_square": user_square}[name]
+            "diff_log_demean": ts.diff_log_demean_filter, "user_affine": user_affine, "user_square": user_square,
+            "user_identity_view": user_identity_view}[name]
 
 
 POSITIVE_FILTERS = ("log_hp", "diff_log_demean")
@@ -135,11 +143,111 @@ COQ_MOM = {"mean": "Mean", "std": "Std", "skew3": "Skew3", "kurt4": "Kurt4", "ra
 
 
 # =============================================================================================== implementation
-def build_loss(case):
-    o = case["opts"]
-    w = None if case["weights"] is None else np.array([unhex(x) for x in case["weights"]])
-    fl = None if case["filters"] is None else [get_filter(n) for n in case["filters"]]
+# Round-4 scenario fields of a case (all optional, all stored in the case so that a replay reproduces them):
+#   sim_dtype / real_dtype   numpy dtype names of the two arrays (the values are representable in them)
+#   layout                   {"sim": C|F|strided|negstride, "real": ..., "readonly": bool}: memory layout of the arrays
+#   opt_repr                 "np" (numpy scalars), "float_p" (p = 2.0), "int" (f = 1, h = 2 as Python ints)
+#   weights_repr             list | tuple | int | readonly | strided        filters_repr: tuple        cov_repr: int | strided | readonly
+#   reassign                 construct the loss with OTHER options / weights / filters, (reassign_eval: evaluate once,) then assign
+#                            the public attributes p, f, frequency_filter, h, nb_values, nb_word_lengths, coordinate_weights,
+#                            coordinate_filters to the values of the case: the value in force is the assigned one
+#   prior_mode               same_real (earlier evaluation: other simulated data, the SAME real array), inplace (earlier evaluation on
+#                            the same two array objects, whose contents the caller then overwrites), rejected (earlier call that fails)
+#   nested                   a user callback (filter / moment calculator) of the evaluation re-enters compute_loss of the same
+#                            object on other data before returning (deterministic stand-in for a second thread)
+#   memo_calc                the user's moment calculator memoises: the same array object is returned for the same series
+def _typed_opts(case):
+    o = dict(case["opts"])
+    r = case.get("opt_repr")
     k = case["loss"]
+    if r == "np":
+        for key in ("p", "nb_values", "nb_word_lengths"):
+            if o.get(key) is not None:
+                o[key] = np.int64(o[key])
+    elif r == "float_p" and k == "minkowski":
+        o["p"] = float(o["p"])
+    return o
+
+
+def _num(x, r, as_float=True):
+    """f / h as handed over by the caller: Python float (default), numpy scalar, Python int when integer-valued."""
+    v = float(x)
+    if r == "np":
+        return np.float64(v)
+    if r == "int" and v == int(v):
+        return int(v)
+    return v
+
+
+def _weights_obj(wh, r):
+    if wh is None:
+        return None
+    vals = [unhex(x) for x in wh]
+    if r == "list":
+        return list(vals)
+    if r == "tuple":
+        return tuple(vals)
+    if r == "int" and all(v == int(v) for v in vals):
+        return np.array([int(v) for v in vals], dtype=np.int64)
+    w = np.array(vals)
+    if r == "strided":
+        big = np.full(2 * len(vals) + 1, 977.0)
+        big[1::2] = w
+        return big[1::2]
+    if r == "readonly":
+        w.setflags(write=False)
+    return w
+
+
+def _cov_obj(cov, r):
+    if isinstance(cov, str):
+        return cov
+    m = np.array([[unhex(x) for x in row] for row in cov])
+    if r == "int" and (m == np.round(m)).all():
+        return m.astype(np.int64)
+    if r == "strided":
+        big = np.full((2 * m.shape[0] + 1, m.shape[1] + 1), 977.0)
+        v = big[1::2, 1:]
+        v[...] = m
+        return v
+    if r == "readonly":
+        m.setflags(write=False)
+    return m
+
+
+def memoised(calc):
+    cache = {}
+
+    def f(x):
+        key = (x.dtype.str, x.shape, np.ascontiguousarray(x).tobytes())
+        if key not in cache:
+            cache[key] = calc(x)
+        return cache[key]          # the same array object every time
+
+    return f
+
+
+def _decoy(case):
+    """Other option values (deterministic) for the reassign scenario."""
+    o = dict(case["opts"])
+    k = case["loss"]
+    if k == "minkowski":
+        o["p"] = int(o["p"]) % 4 + 1
+    elif k == "fourier":
+        o["f"] = "0.3" if float(o["f"]) != 0.3 else "0.8"
+        o["filter"] = "gaussian" if o["filter"] == "ideal" else "ideal"
+    elif k == "gsl":
+        o["nb_values"] = 3 if o["nb_values"] != 3 else 5
+        o["nb_word_lengths"] = 2 if o["nb_word_lengths"] != 2 else 3
+    elif k == "likelihood":
+        o["h"] = fhex(0.75) if o["h"] in ("silverman", "scott") else "scott"
+    return o
+
+
+def _construct(case, o, w, fl, hooks):
+    """One constructor call.  hooks: {"calc": wrapper for the user's moment calculator}."""
+    k = case["loss"]
+    r = case.get("opt_repr")
     if k == "minkowski":
         from black_it.loss_functions.minkowski import MinkowskiLoss
 
@@ -147,20 +255,19 @@ def build_loss(case):
     if k == "msm":
         from black_it.loss_functions.msm import MethodOfMomentsLoss
 
-        cov = o["cov"]
-        if not isinstance(cov, str):
-            cov = np.array([[unhex(x) for x in row] for row in cov])
         kw = {}
         calc = MOMSETS[o["moments"]][0]
         if calc is not None:
-            kw["moment_calculator"] = calc
-        return MethodOfMomentsLoss(covariance_mat=cov, coordinate_weights=w, coordinate_filters=fl,
-                                   standardise_moments=o["std"], **kw)
+            if case.get("memo_calc"):
+                calc = memoised(calc)
+            kw["moment_calculator"] = hooks["calc"](calc) if hooks.get("calc") else calc
+        return MethodOfMomentsLoss(covariance_mat=_cov_obj(o["cov"], case.get("cov_repr")), coordinate_weights=w,
+                                   coordinate_filters=fl, standardise_moments=o["std"], **kw)
     if k == "fourier":
-        from black_it.loss_functions.fourier import FourierLoss, gaussian_low_pass_filter, ideal_low_pass_filter
+        from black_it.loss_functions.fourier import FourierLoss
 
-        ff = ideal_low_pass_filter if o["filter"] == "ideal" else gaussian_low_pass_filter
-        return FourierLoss(frequency_filter=ff, f=float(o["f"]), coordinate_weights=w, coordinate_filters=fl)
+        return FourierLoss(frequency_filter=_freq_filter(o["filter"]), f=_num(o["f"], r), coordinate_weights=w,
+                           coordinate_filters=fl)
     if k == "gsl":
         from black_it.loss_functions.gsl_div import GslDivLoss
 
@@ -169,17 +276,99 @@ def build_loss(case):
     if k == "likelihood":
         from black_it.loss_functions.likelihood import LikelihoodLoss
 
-        h = o["h"] if o["h"] in ("silverman", "scott") else unhex(o["h"])
-        return LikelihoodLoss(coordinate_weights=w, coordinate_filters=fl, h=h)
+        return LikelihoodLoss(coordinate_weights=w, coordinate_filters=fl, h=_bandwidth(o["h"], r))
     raise KeyError(k)
+
+
+def _freq_filter(name):
+    from black_it.loss_functions.fourier import gaussian_low_pass_filter, ideal_low_pass_filter
+
+    return ideal_low_pass_filter if name == "ideal" else gaussian_low_pass_filter
+
+
+def _bandwidth(h, r):
+    return h if h in ("silverman", "scott") else _num(unhex(h), r)
+
+
+def build_loss(case, hooks=None):
+    """Returns (loss, finalize): `finalize()` puts the options of the case in force when the object was constructed with
+    other ones (reassign scenario); it is a no-op otherwise."""
+    hooks = hooks or {}
+    o = _typed_opts(case)
+    r = case.get("opt_repr")
+    Dd = len(case["real"][0])
+    w = _weights_obj(case["weights"], case.get("weights_repr"))
+    fl = None if case["filters"] is None else [get_filter(n) for n in case["filters"]]
+    if fl is not None and hooks.get("filter"):
+        fl = [None if f is None else hooks["filter"](f) for f in fl]
+    if fl is not None and case.get("filters_repr") == "tuple":
+        fl = tuple(fl)
+    if not case.get("reassign"):
+        return _construct(case, o, w, fl, hooks), (lambda: None)
+    d = _decoy(case)
+    dw = np.arange(1.0, Dd + 1.0) if w is None else None
+    dfl = [user_square] * Dd if fl is None else None
+    loss = _construct(case, d, dw, dfl, hooks)
+
+    def finalize():
+        k = case["loss"]
+        loss.coordinate_weights = w
+        loss.coordinate_filters = fl
+        if k == "minkowski":
+            loss.p = o["p"]
+        elif k == "fourier":
+            loss.f = _num(o["f"], r)
+            loss.frequency_filter = _freq_filter(o["filter"])
+        elif k == "gsl":
+            loss.nb_values = o["nb_values"]
+            loss.nb_word_lengths = o["nb_word_lengths"]
+        elif k == "likelihood":
+            loss.h = _bandwidth(o["h"], r)
+
+    return loss, finalize
+
+
+def _lay(a, how, axis_time):
+    if how in (None, "C"):
+        return a
+    if how == "F":
+        return np.asfortranarray(a)
+    idx = [slice(None)] * a.ndim
+    if how == "strided":      # every second row and all but the first column of a larger array filled with other numbers
+        shape = list(a.shape)
+        shape[axis_time] = 2 * shape[axis_time] + 1
+        shape[-1] += 1
+        big = np.full(shape, 97).astype(a.dtype)
+        idx[axis_time] = slice(1, None, 2)
+        idx[-1] = slice(1, None)
+        v = big[tuple(idx)]
+        v[...] = a
+        return v
+    if how == "negstride":    # stored backwards in time, seen through a reversing view
+        idx[axis_time] = slice(None, None, -1)
+        return np.ascontiguousarray(a[tuple(idx)])[tuple(idx)]
+    raise KeyError(how)
 
 
 def arrays(case):
     sim = np.array([[[unhex(x) for x in row] for row in mem] for mem in case["sim"]], dtype=float)
     real = np.array([[unhex(x) for x in row] for row in case["real"]], dtype=float)
-    if case.get("dtype") == "int64":   # integer-valued data handed over as integer arrays (counts, prices in cents, ...)
-        sim, real = sim.astype(np.int64), real.astype(np.int64)
+    sd = case.get("sim_dtype") or case.get("dtype")    # "dtype": integer-valued data handed over as integer arrays (round 3)
+    rd = case.get("real_dtype") or case.get("dtype")
+    if sd:
+        sim = sim.astype(np.dtype(sd))
+    if rd:
+        real = real.astype(np.dtype(rd))
+    lay = case.get("layout") or {}
+    sim, real = _lay(sim, lay.get("sim"), 1), _lay(real, lay.get("real"), 0)
     return sim, real
+
+
+def _junk(r0, shape, like):
+    """Other data of the given shape in the representation of `like` (positive, so that every filter accepts them)."""
+    if like.dtype.kind in "iu":
+        return r0.integers(1, 9, size=shape).astype(like.dtype)
+    return r0.uniform(0.5, 2.0, size=shape).astype(like.dtype)
 
 
 def run_impl(case):
@@ -191,19 +380,74 @@ def run_impl(case):
         warnings.simplefilter("ignore")
         old = np.seterr(all="ignore")
         try:
-            loss = build_loss(case)
+            r0 = np.random.default_rng(case.get("prior_seed", 0))     # data only; seed stored in the case
+            hooks = {}
+            holder = {"loss": None, "busy": False, "n": 0}
+            if case.get("nested"):
+                # a callback of the evaluation re-enters compute_loss of the SAME object on other data (once per callback
+                # position, not recursively) - what a second thread does when the interpreter switches at this point
+                E_, N_, D_ = sim.shape
+                n2 = max(8, N_ + 3) if case["loss"] != "minkowski" else N_ + 1
+                t2 = n2 if real.shape[0] == N_ else real.shape[0] + 1
+                o_sim = r0.uniform(0.5, 2.0, size=(E_ + 1, n2, D_))
+                o_real = r0.uniform(0.5, 2.0, size=(t2, D_))
+
+                def wrap(f):
+                    def g(x):
+                        if holder["loss"] is not None and not holder["busy"]:
+                            holder["busy"] = True
+                            holder["n"] += 1
+                            try:
+                                holder["loss"].compute_loss(o_sim, o_real)
+                            except Exception:  # noqa: BLE001
+                                pass
+                            finally:
+                                holder["busy"] = False
+                        return f(x)
+                    return g
+                hooks = {"filter": wrap, "calc": wrap}
+            loss, finalize = build_loss(case, hooks)
+            if case.get("reassign_eval"):
+                with contextlib.suppress(Exception):
+                    loss.compute_loss(sim, real)         # evaluated with the other options first
+            finalize()
             if case.get("prior_D"):
                 # the value must equal the definition also when the SAME loss object was used before on other data
                 # (here: data with more coordinates, default weights): the earlier evaluation is discarded
-                r0 = np.random.default_rng(case.get("prior_seed", 0))     # data only; seed stored in the case
                 pn = case.get("prior_N") or sim.shape[1]   # ... possibly of another length
                 pt = pn if real.shape[0] == sim.shape[1] else real.shape[0]
                 with contextlib.suppress(Exception):
                     loss.compute_loss(r0.uniform(0.5, 2.0, size=(sim.shape[0], pn, case["prior_D"])),
                                       r0.uniform(0.5, 2.0, size=(pt, case["prior_D"])))
+            pm = case.get("prior_mode")
+            if pm == "same_real":
+                # a calibration evaluates many simulated ensembles against the same real array
+                with contextlib.suppress(Exception):
+                    loss.compute_loss(_junk(r0, (sim.shape[0] + 1,) + sim.shape[1:], sim), real)
+                with contextlib.suppress(Exception):
+                    loss.compute_loss(_junk(r0, sim.shape, sim), real)
+            elif pm == "inplace":
+                # the same two array objects, holding other numbers at the first evaluation
+                sim[...] = _junk(r0, sim.shape, sim)
+                real[...] = _junk(r0, real.shape, real)
+                with contextlib.suppress(Exception):
+                    loss.compute_loss(sim, real)
+                sim[...] = sim0
+                real[...] = real0
+            elif pm == "rejected":
+                # an evaluation that is refused (real data with one coordinate more than the simulated ones / than the weights)
+                with contextlib.suppress(Exception):
+                    loss.compute_loss(_junk(r0, sim.shape, sim), _junk(r0, (real.shape[0], real.shape[1] + 1), real))
+            if (case.get("layout") or {}).get("readonly"):
+                sim.setflags(write=False)
+                real.setflags(write=False)
+            holder["loss"] = loss
             v = float(loss.compute_loss(sim, real))
+            holder["loss"] = None
             obs["value"] = fhex(v) if math.isfinite(v) else None
             obs["raw"] = repr(v)
+            if case.get("nested"):
+                obs["nested_calls"] = holder["n"]
         except Exception as e:  # noqa: BLE001
             obs["error"] = f"{type(e).__name__}: {e}"[:200]
         finally:
@@ -504,6 +748,10 @@ def gsl_edge_status(series_list, b):
     return status, None
 
 
+def _wrap32(n: int) -> int:
+    return (n + 2**31) % 2**32 - 2**31
+
+
 def o_likelihood(sim, real, o, cond, variant):
     """sim[d][r][s], real[d][t] as Fractions."""
     Dd, R, S, T = len(real), len(sim[0]), len(sim[0][0]), len(real[0])
@@ -523,7 +771,10 @@ def o_likelihood(sim, real, o, cond, variant):
             acc = Decimal(0)
             best = None
             for s in range(S):
-                d2 = sum((sim[d][r][s] - real[d][t]) ** 2 for d in range(Dd)) / Dd
+                if variant == 2:   # likelihood.py:105-112 on int32 arrays: the difference and its square wrap modulo 2^32
+                    d2 = Fraction(sum(_wrap32(_wrap32(int(sim[d][r][s]) - int(real[d][t])) ** 2) for d in range(Dd)), Dd)
+                else:
+                    d2 = sum((sim[d][r][s] - real[d][t]) ** 2 for d in range(Dd)) / Dd
                 ex = -(D(d2) / (2 * h * h))
                 best = ex if best is None or ex > best else best
                 acc += ex.exp() / norm
@@ -569,9 +820,9 @@ def oracle(case, obs, variant=0):
         return "undefined", type(u).__name__, cond.v
 
 
-def within(v: float, ref: Decimal) -> bool:
+def within(v: float, ref: Decimal, rtol=RTOL) -> bool:
     fv = Fraction(v)
-    tol = RTOL * max(1, abs(fv))
+    tol = rtol * max(1, abs(fv))
     return abs(D(fv) - ref) <= D(tol)
 
 
@@ -618,7 +869,8 @@ def emit(case, obs, variant=0):
 # =============================================================================================== generators
 def dy_value(rng, style):
     if style == "coarse":
-        return rng.randint(-8, 8) / 4.0
+        v = rng.randint(-8, 8) / 4.0
+        return -0.0 if v == 0.0 and rng.below(2) else v   # signed zeros
     if style == "positive":
         return rng.randint(64, 512) / 128.0           # [0.5, 4]
     if style == "small":
@@ -689,7 +941,8 @@ def gen_weights(rng, Dd):
 def gen_filters(rng, Dd, force=False):
     if not force and rng.below(2) == 0:
         return None
-    names = [rng.choice([None, "hp_cycle", "log_hp", "diff_log_demean", "user_affine", "user_square"]) for _ in range(Dd)]
+    names = [rng.choice([None, "hp_cycle", "log_hp", "diff_log_demean", "user_affine", "user_square", "user_identity_view"])
+             for _ in range(Dd)]
     if force and all(n is None for n in names):
         names[rng.below(Dd)] = rng.choice(["user_affine", "hp_cycle"])
     return names
@@ -698,7 +951,12 @@ def gen_filters(rng, Dd, force=False):
 def base_case(rng, loss, opts, nmin=3, nmax=32, T=None, force_filters=False, allow_constant=True, no_filters=False,
               style=None):
     E, Dd = rng.randint(1, 4), rng.randint(1, 3)
-    N = rng.randint(nmin, nmax)
+    big = rng.below(10)
+    if big == 0:
+        E = rng.randint(5, 9)          # larger ensembles
+    elif big == 1:
+        Dd = rng.randint(4, 6)         # more coordinates
+    N = rng.randint(nmin, nmax if big > 1 else min(nmax, max(nmin, 12)))
     filters = None if no_filters else gen_filters(rng, Dd, force_filters)
     pos = () if filters is None else tuple(i for i, n in enumerate(filters) if n in POSITIVE_FILTERS)
     sim, real, shapes = gen_data(rng, E, N, Dd, pos, allow_constant, T, style)
@@ -745,7 +1003,8 @@ def gen_int_dtype(rng, nmax):
 
 
 def gen_minkowski(rng, nmax):
-    c = base_case(rng, "minkowski", {"p": rng.choice([1, 2, 3, 4])}, 3, nmax, force_filters=rng.below(3) == 0)
+    c = base_case(rng, "minkowski", {"p": rng.choice([1, 2, 3, 4, 1, 2, 3, 4, 5, 6, 8])}, 3, nmax,
+                  force_filters=rng.below(3) == 0)
     if c["filters"] is None and rng.below(4) == 0:
         return shift_level(rng, c)
     if rng.below(8) == 0:   # sim mean equal to real: loss 0
@@ -759,22 +1018,34 @@ def gen_minkowski(rng, nmax):
 
 def rand_sym(rng, k):
     m = [[0.0] * k for _ in range(k)]
+    q = 1.0 if rng.below(3) == 0 else 4.0     # a third of the matrices are integer-valued (and may be handed over as int64)
     for a in range(k):
         for b in range(a, k):
-            m[a][b] = m[b][a] = rng.randint(-8, 8) / 4.0
+            m[a][b] = m[b][a] = rng.randint(-8, 8) / q
     return [[fhex(x) for x in row] for row in m]
 
 
-def gen_msm(rng, nmax):
+def gen_msm(rng, nmax, force=None):
     ms = rng.choice(["default", "default", "user_mean_std", "user_m_s_r2", "user_acf12", "user_absdiff"])
-    k = len(MOMSETS[ms][1])
     cov = rng.choice(["identity", "inverse_variance", "inverse_variance", "W"])
+    std = rng.below(3) == 0
+    if force:
+        ms, cov, std = force.get("moments", ms), force.get("cov", cov), force.get("std", std)
+    k = len(MOMSETS[ms][1])
     if cov == "W":
         cov = rand_sym(rng, k)
-    opts = {"moments": ms, "cov": cov, "std": rng.below(3) == 0}
-    c = base_case(rng, "msm", opts, 8, max(8, nmax), allow_constant=ms in ("default", "user_mean_std", "user_m_s_r2"))
+    opts = {"moments": ms, "cov": cov, "std": std}
+    # a quarter of the cases: simulated series of another length than the real one (sim_length != data length)
+    T = rng.randint(8, max(8, min(nmax, 24))) if rng.below(4) == 0 else None
+    nmin, nmx = 8, max(8, nmax)
+    if force and force.get("lengths"):       # series lengths taken from a given set (simulated and real independently)
+        nmin = nmx = rng.choice(force["lengths"])
+        T = rng.choice(force["lengths"])
+    c = base_case(rng, "msm", opts, nmin, nmx, T=T, allow_constant=ms in ("default", "user_mean_std", "user_m_s_r2"))
     c["tag"] = f"msm/{ms}/{cov if isinstance(cov, str) else 'W'}/{'std' if opts['std'] else 'raw'}"
-    if cov == "inverse_variance" and rng.below(6) == 0:
+    if len(c["real"]) != len(c["sim"][0]):
+        c["tag"] += "/T!=N"
+    if cov == "inverse_variance" and rng.below(6) == 0 and not force:
         # zero variance on purpose: every member is the real series itself
         for e in range(len(c["sim"])):
             c["sim"][e] = [list(r) for r in c["real"]]
@@ -853,10 +1124,16 @@ def gen_gsl_on_edge(rng):
 
 
 def gen_likelihood(rng, nmax):
-    h = rng.choice(["silverman", "scott", fhex(0.3), fhex(1.5)])
+    h = rng.choice(["silverman", "scott", fhex(0.3), fhex(1.5), "silverman", "scott", fhex(0.3), fhex(1.5), fhex(1.0), fhex(2.0)])
     S = rng.randint(3, min(nmax, 24))
     T = rng.randint(2, 10)
+    if rng.below(8) == 0:
+        S = rng.randint(1, 2)          # one or two simulated points per member
+    if rng.below(8) == 0:
+        T = 1                          # a single real observation
     c = base_case(rng, "likelihood", {"h": h}, S, S, T=T, style="generic" if rng.below(2) else "coarse")
+    if S < 3 and c["filters"] is not None:     # the library's HP filter needs three points
+        c["filters"] = [n if n in (None, "user_affine", "user_square", "user_identity_view") else "user_affine" for n in c["filters"]]
     if len(c["sim"]) > 2 and S * T * len(c["sim"]) > 400:
         c["sim"] = c["sim"][:2]
     c["tag"] = "likelihood/" + (h if h in ("silverman", "scott") else "explicit")
@@ -874,6 +1151,207 @@ def gen_likelihood_far(rng, nmax):
         c = gen_likelihood(rng, nmax)
         if c["filters"] is None and "far-from-origin" not in c["tag"]:
             return shift_level(rng, c, (2**17, 2**21))
+
+
+# ----------------------------------------------------------------------------------------------- round 4 generators
+def _map_data(c, fn):
+    def mv(x):
+        return [mv(y) for y in x] if isinstance(x, list) else fhex(fn(unhex(x)))
+    for key in ("sim", "real"):
+        c[key] = mv(c[key])
+    return c
+
+
+def _plain(c):
+    return c["filters"] is None and "far-from-origin" not in c["tag"] and not c.get("expect_undefined")
+
+
+FAR_KINDS = ("msm-default-identity", "msm-user-iv", "msm-any", "fourier", "gsl")
+
+
+def gen_far(rng, nmax, j=0):
+    """Method of moments / Fourier / GSL-div on data far from the origin relative to their spread (one-pass variances,
+    expanded squares and 'centre first' shortcuts are only visible there).  Levels: see the design note for the measured
+    accuracy of the unchanged code at each.  The kinds are taken in turn (j = number of cases made so far)."""
+    kind = FAR_KINDS[j % len(FAR_KINDS)]
+    hi = [COND_FAR.numerator, COND_FAR.denominator]
+    while True:
+        if kind == "msm-default-identity":
+            # the 18 library moments (np.std, scipy skew / kurtosis, statsmodels acf) at a level of 2^17
+            # ... on series of 8 or 16 points: their mean (a sum of 29-bit numbers divided by a power of two) and hence every
+            # deviation is exact in binary64, so the correct code is as accurate as at the origin and the usual conditioning
+            # rule applies, while E[x^2] - E[x]^2 loses 1e-6
+            c = gen_msm(rng, min(nmax, 24), {"moments": "default", "cov": "identity", "lengths": [8, 16]})
+            if not _plain(c):
+                continue
+            c["need_cond"] = True       # not the all-constant cases (no division at all: nothing to lose far from the origin)
+            return shift_level(rng, c, (2**17,))
+        if kind == "msm-user-iv":
+            c = gen_msm(rng, min(nmax, 24), {"moments": rng.choice(["user_mean_std", "user_absdiff"]),
+                                             "cov": "inverse_variance", "std": False})
+            if not _plain(c):
+                continue
+            c["cond_min"] = hi
+            return shift_level(rng, c, (2**17,))
+        c = GENS[{"msm-any": "msm"}.get(kind, kind)](rng, min(nmax, 24))
+        if not _plain(c):
+            continue
+        if kind == "fourier":
+            return shift_level(rng, c, (2**10,))
+        if kind == "gsl":
+            return shift_level(rng, c, (2**10, 2**17))
+        o = c["opts"]
+        if o["cov"] == "inverse_variance":
+            if o["std"] or o["moments"] not in ("user_mean_std", "user_absdiff"):
+                continue
+            c["cond_min"] = hi
+            return shift_level(rng, c, (2**17,))
+        if not isinstance(o["cov"], str) or o["moments"] == "user_m_s_r2":
+            # an indefinite W (cancellation in g'Wg) / the user's own float mean of x^2 at 2^34: moderate level only
+            return shift_level(rng, c, (2**10,))
+        if rng.below(2):
+            return shift_level(rng, c, (2**10,))
+        c["cond_min"] = hi
+        return shift_level(rng, c, (2**17,))
+
+
+def gen_scaled(rng, nmax, j=0):
+    """Method of moments / GSL-div on data multiplied by 2^k, k in {-40, -32, 24, 40} (exact in binary64: every floating-point
+    operation of a scale-free computation gives exactly the scaled result, so the unchanged code behaves as on the
+    unscaled twin; absolute thresholds such as np.isclose's 1e-8 do not)."""
+    loss = ("msm", "msm", "gsl")[j % 3]
+    while True:
+        # (the library's 18 moments in half of the method-of-moments cases: their skewness / kurtosis / autocorrelations are
+        # scale-free, so the loss stays O(1) whatever k)
+        c = gen_msm(rng, min(nmax, 24), {"moments": "default"} if j % 2 == 0 else None) if loss == "msm" else \
+            GENS[loss](rng, min(nmax, 24))
+        if not _plain(c):
+            continue
+        # tiny: 2^-32 and 2^-40 put every value (|x| <= 8 before scaling) below numpy's default absolute tolerance 1e-8
+        k = rng.choice([-40, -32, 24, 40] if j % 6 > 2 else [-40, -32])
+        c["scale_pow"] = k
+        _map_data(c, lambda v: v * 2.0**k)
+        c["tag"] += "/scaled-tiny" if k < 0 else "/scaled-huge"
+        return c
+
+
+def unscaled_twin(case):
+    t = json.loads(json.dumps(case))
+    k = t.pop("scale_pow")
+    return _map_data(t, lambda v: v * 2.0**(-k))
+
+
+INT_PAIRS = [("int64", "int64"), ("int32", "int32"), ("int64", "float64"), ("float64", "int64"), ("int32", "int64"),
+             ("float64", "int32")]
+
+
+def gen_int_any(rng, nmax, j=0):
+    """Any loss on integer-valued data handed over as int64 / int32 arrays, or one integer and one floating-point array."""
+    loss = ("minkowski", "msm", "fourier", "gsl", "likelihood")[j % 5]
+    c = GENS[loss](rng, min(nmax, 16))
+    _map_data(c, lambda v: float(math.floor(v * 4)))
+    c["sim_dtype"], c["real_dtype"] = rng.choice(INT_PAIRS)
+    c["tag"] += "/int-arrays"
+    return c
+
+
+def gen_lik_int32_wide(rng):
+    """Kernel likelihood of int32 counts with a spread above 46340: (x - y)^2 does not fit in 32 bits."""
+    E, S, T, Dd = rng.randint(1, 2), rng.randint(3, 8), rng.randint(2, 4), rng.randint(1, 2)
+    sim = [[[fhex(float(rng.randint(0, 100000))) for _ in range(Dd)] for _ in range(S)] for _ in range(E)]
+    real = [[fhex(float(rng.randint(0, 100000))) for _ in range(Dd)] for _ in range(T)]
+    dt = rng.choice(["int32", "int32", "int64"])
+    return {"loss": "likelihood", "opts": {"h": fhex(32768.0)}, "sim": sim, "real": real, "weights": None, "filters": None,
+            "tag": f"likelihood/{dt}-wide-spread", "shapes": ["counts"] * Dd, "sim_dtype": dt, "real_dtype": dt}
+
+
+def _flat(x):
+    return [z for y in x for z in _flat(y)] if isinstance(x, list) else [x]
+
+
+def _f32_ok(c):
+    return all(float(np.float32(unhex(x))) == unhex(x) for key in ("sim", "real") for x in _flat(c[key]))
+
+
+def gen_f32(rng, nmax, j=0):
+    """float32 arrays.  Fourier (numpy's rfft works in double) and GSL-div (symbols) give the same value as on the float64
+    copy and are judged at the usual tolerance, by Coq too; Minkowski is computed in single precision by numpy / scipy and is
+    judged by the oracle at 1e-5."""
+    loss = ("fourier", "gsl", "minkowski")[j % 3]
+    while True:
+        c = GENS[loss](rng, min(nmax, 16))
+        if "far-from-origin" in c["tag"] or not _f32_ok(c):
+            continue
+        if c["filters"] is not None and any(n in POSITIVE_FILTERS + ("hp_cycle",) for n in c["filters"] if n):
+            continue       # library filters on float32 input: their own business (C20); user callbacks stay
+        c["sim_dtype"] = "float32"
+        c["real_dtype"] = rng.choice(["float32", "float64"])
+        if loss == "minkowski":
+            c["tol32"] = True
+        c["tag"] += "/float32"
+        return c
+
+
+def gen_small(rng):
+    """Series of length 1 and 2 (rfft of length 1 / 2, a distance over one point)."""
+    loss = rng.choice(["minkowski", "fourier"])
+    opts = {"p": rng.choice([1, 2, 3])} if loss == "minkowski" else {"filter": rng.choice(["ideal", "gaussian"]),
+                                                                      "f": rng.choice(F_VALUES)}
+    E, Dd, N = rng.randint(1, 3), rng.randint(1, 3), rng.randint(1, 2)
+    filters = None if rng.below(2) else [rng.choice([None, "user_affine", "user_square", "user_identity_view"]) for _ in range(Dd)]
+    sim, real, shapes = gen_data(rng, E, N, Dd)
+    c = {"loss": loss, "opts": opts, "sim": sim, "real": real, "weights": gen_weights(rng, Dd), "filters": filters,
+         "tag": f"{loss}/N<=2", "shapes": shapes}
+    if loss == "fourier" and opts["filter"] == "gaussian" and round_half_even(Fraction(opts["f"]) * (N // 2 + 1)) == 0:
+        c["expect_undefined"] = True
+        c["tag"] += "/sigma0"
+    return c
+
+
+def has_callback(case):
+    return (case["filters"] is not None and any(n is not None for n in case["filters"])) or \
+           (case["loss"] == "msm" and MOMSETS[case["opts"]["moments"]][0] is not None)
+
+
+def decorate(rng, case):
+    """How the case is handed to the implementation (representation, life-cycle of the loss object); the definition and the
+    expected value do not depend on any of it."""
+    loss = case["loss"]
+    if rng.below(3) == 0:
+        lay = {"sim": rng.choice(["C", "F", "strided", "negstride"]), "real": rng.choice(["C", "F", "strided", "negstride"])}
+        if rng.below(2):
+            lay["readonly"] = True
+        case["layout"] = lay
+    o = case["opts"]
+    int_ok = (loss == "fourier" and float(o["f"]) == 1.0) or \
+             (loss == "likelihood" and o["h"] not in ("silverman", "scott") and unhex(o["h"]) == int(unhex(o["h"])))
+    if int_ok and rng.below(2):
+        case["opt_repr"] = "int"            # f = 1, h = 2 as Python ints
+    elif rng.below(4) == 0:
+        case["opt_repr"] = "float_p" if loss == "minkowski" and rng.below(2) else "np"
+    if case["weights"] is not None and rng.below(2):
+        case["weights_repr"] = rng.choice(["list", "tuple", "int", "readonly", "strided"])
+    if case["filters"] is not None and rng.below(3) == 0:
+        case["filters_repr"] = "tuple"
+    if loss == "msm" and not isinstance(case["opts"]["cov"], str) and rng.below(2):
+        case["cov_repr"] = rng.choice(["int", "strided", "readonly"])
+    if rng.below(4) == 0:
+        case["reassign"] = True
+        case["reassign_eval"] = bool(rng.below(2))
+    user_calc = loss == "msm" and MOMSETS[case["opts"]["moments"]][0] is not None
+    if user_calc and rng.below(2):
+        case["memo_calc"] = True
+    if "prior_D" not in case and (rng.below(3) == 0 or case.get("memo_calc")):
+        case["prior_mode"] = "same_real" if case.get("memo_calc") and rng.below(2) else \
+            rng.choice(["same_real", "inplace", "rejected"])
+    if has_callback(case) and rng.below(3) == 0:
+        case["nested"] = True
+    case.setdefault("prior_seed", rng.below(2**31))
+    return case
+
+
+HOW_KEYS = ("layout", "opt_repr", "weights_repr", "filters_repr", "cov_repr", "reassign", "prior_mode", "nested", "memo_calc",
+            "prior_D", "sim_dtype", "scale_pow")
 
 
 GENS = {"minkowski": gen_minkowski, "msm": gen_msm, "fourier": gen_fourier, "gsl": gen_gsl, "likelihood": gen_likelihood}
@@ -899,11 +1377,18 @@ def corpus_cases():
 def usable(case, obs):
     """Decide whether a generated case is a fair test (see design.d/C07.md, 'ill-conditioned inputs')."""
     st, val, cond = oracle(case, obs)
+    if case.get("scale_pow") and st == "value":
+        # data multiplied by 2^k: the conditioning is that of the unscaled twin (the thresholds are absolute)
+        st2, _, cond = oracle(unscaled_twin(case), obs)
+        if st2 != "value":
+            return False, st, val, cond
     if case.get("expect_undefined"):
         return st == "undefined", st, val, cond
     if st == "undefined":
         return False, st, val, cond                     # accidental degeneracy: float rounding decides, skip
-    if cond is not None and cond < COND_MIN:
+    if cond is not None and cond < (Fraction(*case["cond_min"]) if case.get("cond_min") else COND_MIN):
+        return False, st, val, cond
+    if case.get("need_cond") and cond is None:
         return False, st, val, cond
     if case["loss"] == "fourier":
         # f is modelled as the published decimal, rounded half-to-even exactly; the code rounds the float product.  They
@@ -937,6 +1422,8 @@ def descriptor_for(case, obs, chk_variant_ok):
     loss = case["loss"]
     if loss == "minkowski" and case["filters"] is not None and chk_variant_ok:
         return {"kind": "minkowski_filters_ignored"}
+    if loss == "likelihood" and chk_variant_ok:
+        return {"kind": "integer_wraparound", "loss": "likelihood", "dtype": "int32"}
     if loss == "gsl" and chk_variant_ok:
         T = len(case["real"])
         b = case["opts"]["nb_values"] if case["opts"]["nb_values"] is not None else int((T - 1) / 2.0)
@@ -966,6 +1453,8 @@ def run(chk, replay=None):
                 case["prior_N"] = rng.choice([n0 + 3, max(5, n0 - 2), 2 * n0, max(5, n0 // 2)])
             case["prior_seed"] = rng.below(2**31)
             case["tag"] = case.get("tag", "") + "+reused-object"
+        if not force and not case.get("tag", "").startswith("corpus/"):
+            decorate(rng, case)
         obs = run_impl(case)
         ok, st, val, cond = usable(case, obs)
         if not ok and not force:
@@ -1001,12 +1490,24 @@ def run(chk, replay=None):
             add(gen_int_dtype(rng, nmax))
         for _ in range(4 if quick else 30):
             add(gen_likelihood_far(rng, nmax))
+        # round 4 (generator sweep): see "Generator sweep" in design.d/C07.md
+        extra = [(gen_far, 15, 100, True), (gen_scaled, 6, 50, True), (gen_int_any, 10, 80, True), (gen_f32, 6, 50, True),
+                 (lambda r, n, j: gen_small(r), 6, 40, False), (lambda r, n, j: gen_lik_int32_wide(r), 3, 12, False)]
+        for g, nq, nt, retry in extra:
+            got = tries = 0
+            n = nq if quick else nt
+            while got < n and tries < (20 * n if retry else n):
+                tries += 1
+                if add(g(rng, min(nmax, 32), got)):
+                    got += 1
 
     lits = [emit(c, o) for c, o in zip(cases, observations)]
     shard = 8 if chk.tier == "quick" else 12
-    bad, errors = chk.coq_mismatches("C07", IMPORTS, "check_case", CASE_T, lits, shard=shard, timeout=1500,
-                                     preamble=PREAMBLE)
-    bad = set(bad)
+    # (float32 Minkowski cases are judged by the oracle alone, at RTOL32: check_case is proved for 1e-9 only)
+    coq_idx = [i for i, c in enumerate(cases) if not c.get("tol32")]
+    bad, errors = chk.coq_mismatches("C07", IMPORTS, "check_case", CASE_T, [lits[i] for i in coq_idx], shard=shard,
+                                     timeout=1500, preamble=PREAMBLE)
+    bad = {coq_idx[j] for j in bad}
 
     # direct oracle on the implementation's observations
     oracle_fail = {}
@@ -1018,7 +1519,7 @@ def run(chk, replay=None):
                 oracle_fail[i] = f"definition undefined ({val}) but a finite value {unhex(o['value'])!r} was returned"
         elif o["value"] is None:
             oracle_fail[i] = f"definition gives {val:.17g} but the implementation returned {o.get('raw')} / {o['error']}"
-        elif not within(unhex(o["value"]), val):
+        elif not within(unhex(o["value"]), val, RTOL32 if c.get("tol32") else RTOL):
             oracle_fail[i] = f"definition gives {val:.17g}, implementation returned {unhex(o['value'])!r}"
 
     # failing cases: does the code-shaped deviation (variant 1) explain the observed value?  (oracle and Coq)
@@ -1029,6 +1530,18 @@ def run(chk, replay=None):
         st, val, _ = oracle(cases[i], observations[i], variant=1)
         v = observations[i]["value"]
         var_ok_py[i] = (st == "value" and v is not None and within(unhex(v), val))
+    for i in suspects:
+        # kernel likelihood of int32 arrays: does 32-bit wrap-around of (x - y)^2 explain the value?  (oracle only: the Coq
+        # model has no machine integers; the flag is set for both so that the specific descriptor is used)
+        c = cases[i]
+        if c["loss"] == "likelihood" and c.get("sim_dtype") == "int32" and c.get("real_dtype") == "int32" \
+                and c["filters"] is None:
+            st, val, _ = oracle(c, observations[i], variant=2)
+            v = observations[i]["value"]
+            ok = bool(st == "value" and v is not None and within(unhex(v), val))
+            if v is None and st == "undefined":
+                ok = True      # wrapped distances so large that every kernel term underflows: log 0 on both sides
+            var_ok_py[i] = var_ok_coq[i] = ok
     if vs:
         vbad, verr = chk.coq_mismatches("C07v", IMPORTS, "check_case", CASE_T,
                                         [emit(cases[i], observations[i], 1) for i in vs], shard=4, timeout=1500,
@@ -1045,6 +1558,10 @@ def run(chk, replay=None):
         dist["N<=8" if len(c["sim"][0]) <= 8 else "N<=16" if len(c["sim"][0]) <= 16 else "N<=32" if len(c["sim"][0]) <= 32 else "N<=64"] += 1
         dist["filters=" + ("none" if c["filters"] is None else "some")] += 1
         dist["weights=" + ("default" if c["weights"] is None else "given")] += 1
+        for hk in HOW_KEYS:
+            if c.get(hk):
+                hv = c[hk]
+                dist["how:" + hk + ("=" + str(hv) if isinstance(hv, str) else "")] += 1
         if o["value"] is not None and unhex(o["value"]) != 0.0:
             nontrivial.add(json.dumps([c["loss"], c["opts"], c["sim"], c["real"], c["weights"], c["filters"]]))
         if i in oracle_fail:
